@@ -117,7 +117,7 @@ func exprString(e ast.Expr) string {
 // rewriteCalls handles .Range(f) and os.Exit(c) anywhere inside n (not
 // descending into nested statements' blocks twice is harmless: the rewrite is
 // idempotent because the rewritten call no longer matches).
-var rewriteNow bool
+var rewriteNow, rewriteTLS bool
 
 func rewriteCalls(n ast.Node) {
 	ast.Inspect(n, func(x ast.Node) bool {
@@ -139,6 +139,14 @@ func rewriteCalls(n ast.Node) {
 		}
 		if id, ok := s.X.(*ast.Ident); ok && id.Name == "os" && s.Sel.Name == "Exit" && len(c.Args) == 1 {
 			c.Fun = &ast.SelectorExpr{X: ast.NewIdent("simrt"), Sel: ast.NewIdent("Exit")}
+		}
+		// os.StartProcess -> simrt.StartProcess (no process is started from inside a simulated run)
+		if id, ok := s.X.(*ast.Ident); ok && id.Name == "os" && s.Sel.Name == "StartProcess" && len(c.Args) == 3 {
+			c.Fun = &ast.SelectorExpr{X: ast.NewIdent("simrt"), Sel: ast.NewIdent("StartProcess")}
+		}
+		// tls.DialWithDialer -> net.TLSDialWithDialer (net is the simulated network in these files)
+		if id, ok := s.X.(*ast.Ident); ok && rewriteTLS && id.Name == "tls" && s.Sel.Name == "DialWithDialer" && len(c.Args) == 4 {
+			c.Fun = &ast.SelectorExpr{X: ast.NewIdent("net"), Sel: ast.NewIdent("TLSDialWithDialer")}
 		}
 		// two reads of a real clock never return the same instant; the bubble's clock
 		// stands still between events
@@ -530,6 +538,7 @@ func main() {
 			rel, _ := filepath.Rel(*repo, fn)
 			curFile = rel
 			rewriteNow = dir == "tars" || dir == "tars/transport"
+			rewriteTLS = netSet[dir]
 			src, err := os.ReadFile(fn)
 			if err != nil {
 				fmt.Fprintln(os.Stderr, err)
